@@ -91,7 +91,7 @@ func unusedImport() []*descriptorpb.FileDescriptorProto {
 }
 
 // layouts: one Go package built from two proto packages (api.proto imports types.proto, after a foreign import),
-// a third file of the second proto package importing the first. Subsets of file_to_generate decide what is co-generated.
+// a third file of the second proto package importing the first; google/protobuf/timestamp.proto itself is generable. Subsets of file_to_generate decide what is co-generated.
 func layouts() []*descriptorpb.FileDescriptorProto {
 	goPkg := schema.GenRoot + "lay/acme"
 	ty := schema.NewFile("lay/types.proto", "acme.types", goPkg)
@@ -108,7 +108,8 @@ func layouts() []*descriptorpb.FileDescriptorProto {
 	mm := more.Msg("More")
 	mm.Field("a", 1, schema.M(am.Full()))
 	mm.Rep("ks", 2, schema.M(am.Full()))
-	return []*descriptorpb.FileDescriptorProto{ty.P, api.P, more.P}
+	// the imported well-known file is itself among the files that may be requested (protoc lets you generate it)
+	return []*descriptorpb.FileDescriptorProto{schema.WellKnown("google/protobuf/timestamp.proto"), ty.P, api.P, more.P}
 }
 
 func testpbFiles() []*descriptorpb.FileDescriptorProto {
